@@ -25,7 +25,7 @@ SPEC = {
     "vk_to_lower_ascii": {"cap_is_n": True},
     "vk_parse_state": {"skip": True}, "vk_set_limit": {"skip": True}, "vk_capi_get": {"state": True}, "vk_capi_owned": {"skip": True},
     "vk_capi_failed_mutators": {"max_n": 6}, "vk_canon": {"p0": [0, 1, 2, 3, 4, 5, 6, 7], "p1": [0, 1, 4, 5], "max_n": 5},
-    "vk_char_class": {"p0": list(range(0, 256, 3))}, "vk_fast_path": {"max_n": 14}, "vk_puny_verify": {"max_n": 3}, "vk_puny_decode": {"max_n": 3}, "vk_puny_encode": {"min_n": 4, "max_n": 8}, "vk_escape": {"p0": [0, 1], "max_n": 7}, "vk_ensure_tables": {"skip": True}, "vk_tables_published": {"skip": True}, "vk_tables_env_publish": {"skip": True},
+    "vk_char_class": {"p0": list(range(0, 256, 3))}, "vk_fast_path": {"max_n": 14}, "vk_shorten_path": {"p0": [0, 1, 6], "p1": [0, 1], "max_n": 14}, "vk_puny_verify": {"max_n": 3}, "vk_puny_decode": {"max_n": 3}, "vk_puny_encode": {"min_n": 4, "max_n": 8}, "vk_escape": {"p0": [0, 1], "max_n": 7}, "vk_ensure_tables": {"skip": True}, "vk_tables_published": {"skip": True}, "vk_tables_env_publish": {"skip": True},
 }
 _corpus_cache = {}
 _lock = threading.Lock()
@@ -198,8 +198,8 @@ def run(eng, obls):
 
 
 def tv_unit(eng, u, cpath):
-    from engine import STR_STUBS
-    if u.stubs and sorted(u.stubs) != sorted(STR_STUBS):
+    from engine import STR_STUBS, TO_ASCII
+    if u.stubs and sorted(x for x in u.stubs if x != TO_ASCII) != sorted(STR_STUBS):
         return {"skipped": True}
     roots = [r for r in u.roots if SPEC.get(r, {}).get("max_n", 48) != 0 and not SPEC.get(r, {}).get("skip")]
     if not roots:
@@ -221,6 +221,8 @@ def tv_unit(eng, u, cpath):
     src = os.path.join(eng.work, "tv_" + u.key() + ".c")
     with open(src, "w") as f:
         f.write(f'#include "{VERIF}/ll2c/ll2c_rt.h"\n#include "{c}"\n#include "{VERIF}/models/models.c"\n')
+        if u.stubs and TO_ASCII in u.stubs:
+            f.write("#define VK_STUB_TO_ASCII 1\n")
         if u.stubs:
             f.write(f'#define VK_STR_MAX 16\n#define VK_NO_HEAP 1\n#include "{VERIF}/models/string_model.c"\n')
         smax = 14 if u.stubs else 40
